@@ -63,8 +63,11 @@ class Evidence:
                "wall_s": round(time.time() - self.t0, 2), "violations": violations,
                "known_finding_hits": known}
         _check(doc)
-        d = VERIF / "evidence"
-        d.mkdir(exist_ok=True)
+        # evidence describes /repo itself: a run against another checkout (seeded change, pre-fix tree; SP2T_REPO)
+        # writes its evidence next to its scratch data instead
+        from . import REPO, SCRATCH_ROOT
+        d = VERIF / "evidence" if str(REPO) == "/repo" else SCRATCH_ROOT / "evidence-other-tree"
+        d.mkdir(parents=True, exist_ok=True)
         (d / f"{self.prop}.json").write_text(json.dumps(doc, indent=1, default=repr))
 
 
